@@ -36,6 +36,7 @@ type seqEntrySpec struct {
 	Issuers []int  `json:"issuers,omitempty"` // ids of issuer blobs
 	Seed    uint64 `json:"seed"`
 	DupOf   int    `json:"dup_of,omitempty"` // 1+id of an entry with the same dedup key but different uncovered data
+	TwinOf  int    `json:"twin_of,omitempty"` // 1+id of a precertificate entry with the same TBS bytes under ANOTHER issuer key: a different entry
 }
 
 type seqCmd struct {
@@ -118,6 +119,16 @@ func (w *seqWorld) buildEntry(id int, sp seqEntrySpec) *seqEntry {
 	}
 	if sp.Precert {
 		copy(p.IssuerKeyHash[:], r.Bytes(32))
+	}
+	if sp.TwinOf > 0 {
+		// byte-identical TBSCertificate, different issuer_key_hash (a re-keyed CA of the same name): two different
+		// Merkle leaves, two different deduplication keys
+		o := w.entries[sp.TwinOf-1]
+		p.Certificate = o.Pending.Certificate
+		p.IsPrecert = true
+		p.PreCertificate = append([]byte("pre-twin-"), r.Bytes(size)...)
+		copy(p.IssuerKeyHash[:], r.Bytes(32))
+		names = o.Names
 	}
 	if sp.DupOf > 0 {
 		// same dedup key as another entry, different uncovered data (chain, precertificate bytes)
